@@ -2,6 +2,8 @@ package main
 
 import (
 	"encoding/json"
+
+	"golang.org/x/tools/go/ssa"
 	"fmt"
 	"os"
 	"path/filepath"
@@ -26,6 +28,33 @@ func configsFor(prop string, tier int) []string {
 		return []string{"default", "noasm"}
 	}
 	return []string{"default"}
+}
+
+// leaf properties whose checks are re-run as part of a dependent property (the lemma DAG of DESIGN.md 2.4):
+// a cut callee's contract is only as good as the leaf proof behind it, so the dependent check fails when a
+// leaf it relies on fails.
+func depsFor(prop string) []string {
+	switch prop {
+	case "C01", "C05":
+		return []string{"C09", "C10", "C16", "C18", "C19"}
+	case "C02":
+		return []string{"C10", "C16", "C18", "C19"}
+	case "C03":
+		return []string{"C09", "C10", "C16", "C18", "C19"}
+	case "C06":
+		return []string{"C09", "C10", "C16", "C17", "C18", "C19"}
+	case "C11":
+		return []string{"C16", "C18", "C19"}
+	case "C12":
+		return []string{"C10", "C18"}
+	case "C09", "C10":
+		return []string{"C18"}
+	case "C16":
+		return []string{"C18", "C19"}
+	case "C17":
+		return []string{"C19"}
+	}
+	return nil
 }
 
 type Finding struct {
@@ -94,9 +123,30 @@ func checkProperty(prop string, tier int, tierName string, re *regexp.Regexp, cf
 	if s := os.Getenv("VERIF_SEED"); s != "" {
 		seed, _ = strconv.Atoi(s)
 	}
-	cfgs := configsFor(prop, tier)
-	if cfgOverride != "" {
-		cfgs = strings.Split(cfgOverride, ";")
+	props := append([]string{prop}, depsFor(prop)...)
+	if os.Getenv("VERIF_NODEPS") != "" || re != nil {
+		props = []string{prop}
+	}
+	propCfgs := map[string]map[string]bool{}
+	var cfgs []string
+	for _, p := range props {
+		propCfgs[p] = map[string]bool{}
+		pc := configsFor(p, tier)
+		if cfgOverride != "" {
+			pc = strings.Split(cfgOverride, ";")
+		}
+		for _, c := range pc {
+			propCfgs[p][c] = true
+			seen := false
+			for _, x := range cfgs {
+				if x == c {
+					seen = true
+				}
+			}
+			if !seen {
+				cfgs = append(cfgs, c)
+			}
+		}
 	}
 	var allObs []*Obligation
 	var results []*RunResult
@@ -146,7 +196,12 @@ func checkProperty(prop string, tier int, tierName string, re *regexp.Regexp, cf
 			faults = append(faults, fmt.Sprintf("config %s: init: %v", cn, err))
 			continue
 		}
-		hs := findHarnesses(l, prop, re)
+		var hs []*ssa.Function
+		for _, p := range props {
+			if propCfgs[p][cn] {
+				hs = append(hs, findHarnesses(l, p, re)...)
+			}
+		}
 		var cfgObs []*Obligation
 		for _, fn := range hs {
 			harnessCount++
@@ -371,6 +426,7 @@ func checkProperty(prop string, tier int, tierName string, re *regexp.Regexp, cf
 			"harnesses":                harnessCount,
 			"case_vectors":             cases,
 			"configurations":           cfgs,
+			"leaf_properties_rechecked": depsFor(prop),
 			"functions_encoded":        fl,
 			"ssa_instructions_executed": steps,
 			"cuts":                     cl,
